@@ -338,13 +338,14 @@ class CallTracer:
 
     def __call__(self, frame: FrameType, event: str, arg: Any) -> "CallTracer":
         code = frame.f_code
-        if (
-            event not in SUPPORTED_EVENTS
-            or self.should_trace
-            and not self.should_trace(code)
-        ):
+        if event not in SUPPORTED_EVENTS:
             return self
         try:
+            # The filter is consulted inside the try block: it may fail too
+            # (the default one resolves the file name, which raises for a
+            # path under a symlink loop), and that must not reach the program
+            if self.should_trace and not self.should_trace(code):
+                return self
             if event == EVENT_CALL:
                 self.handle_call(frame)
             elif event == EVENT_RETURN:
